@@ -547,3 +547,53 @@ def c14(a):
     v.sample({"order": [3, 0, 2, 1], "base": 62, "kind": "slice"})
     v.assumptions.append("the code adds the literal 64 per all-ones word; the model adds W (equal where usize::BITS = 64)")
     return v.finish()
+
+
+def simple_judged(v, tag, obsp, module, what):
+    r, verdicts = pipeline.judge_expr(obsp, tag.replace("/", "-"), module=module)
+    v.add_tlc(r, f"{module}[{os.path.basename(obsp)}]")
+    return file_verdicts(v, obsp, verdicts, what)
+
+
+@register("C15")
+def c15(a):
+    v = Verdict("C15", a.tier, "model_checking")
+    what = "consuming evaluation differs from borrowing evaluation"
+    q = a.tier == "quick"
+    tag = "C15/mcconsume"
+    cfg = work(tag + ".cfg")
+    write_cfg(cfg, {"MaxNodes": 6 if q else 7, "Emit": True, "BumpGuard": True}, invariants=["ScanOk", "EmitCases"])
+    res, summ, obsp = pipeline.gen_replay_shard("MC_Consume", cfg, tag, ["consume"], workers=16)
+    if res.violated or res.error:
+        print(res.out[-3000:])
+        raise vlib.ToolError(f"MC_Consume: {res.violated or res.error} - spec bug")
+    v.add_tlc(res, "MC_Consume")
+    v.cov["traces_validated_against_impl"] += summ["runs"]
+    v.cov["evaluations"] += summ["runs"]
+    simple_judged(v, "C15/jconsume", obsp, "Judge_Consume", what)
+    v.notes.append(f"direction A: {summ['cases']} occurrence patterns (3 variables + literals over <= {6 if q else 7} operands, every "
+                   "interleaving) x {unfolded, folded} through eval / eval_vec / eval_iter with a clone-counting data type; the scan model "
+                   "FlatImpl.Consume never reads a moved-out slot and moves exactly the last occurrence (ScanOk)")
+    n = 60 if q else 600
+    jobs = []
+    for k in range(6):
+        t2 = f"C15/fuzz-mixed-{k}"
+        jobs.append(lambda t2=t2, k=k: (t2,) + pipeline.fuzz_replay(
+            t2, ["fuzz-expr", "--family", "mixed", "--n", str(n // 6), "--stream", str(k), "--max-operands", "60"],
+            ["--forward-all"], mode="consume"))
+    good = []
+    for t2, s2, p2 in parallel(jobs):
+        if s2.get("crashed"):
+            v.violation({"pipeline": t2, "detail": s2}, f"{what}: the library aborted the recorder process in {t2}")
+        else:
+            good.append((t2, p2))
+            v.cov["traces_validated_against_impl"] += s2["runs"]
+            v.cov["evaluations"] += s2["runs"]
+    parallel([(lambda t2=t2, p2=p2: simple_judged(v, t2, p2, "Judge_Consume", what)) for t2, p2 in good], 6)
+    v.notes.append("direction B: random expressions up to 60 operands / 40 variables with repeated occurrences, folded and unfolded")
+    v.cov["rule"] = "all sequences over {literal, a, b, c} of length <= L (exhaustive); non-trivial = at least one variable"
+    v.cov["distinct_nontrivial"] = summ["cases"]
+    v.cov["exhaustive"] = True
+    v.sample({"text": "a + b * a + 4 * c", "clones": [1, 0, 0]})
+    v.assumptions.append("all data types: decided for the clone-counting free algebra; the scan touches T only through Clone and mem::take")
+    return v.finish()
